@@ -235,9 +235,67 @@ def _setup(s):
     s.fsm.archive_blocks = True
 
 
+def exec_runid(case):
+    '''the shelve backend's db.next() behind farm.rerunid: with results of
+    generated run IDs in the store (one to four digits), an event that
+    carries no run ID gets one that is strictly larger than every stored
+    one; results stored under it move the next draw on'''
+    import dawgie.db
+    import dawgie.pl.dag
+    import dawgie.pl.farm as farm
+
+    from .. import store as storemod
+
+    out = core.Outcome()
+    pool = [{'task': 'tk', 'name': 'alpha', 'ver': [1, 0, 0],
+             'svs': [{'name': 's', 'ver': [1, 0, 0], 'vals': ['v'],
+                      'vers': [[1, 0, 0]], 'inh': [0]}]}]
+    s = storemod.Store(pool)
+    try:
+        known = set()
+        for n, run in enumerate(case['runs']):
+            s.update('T1', run, 0, [n])
+            known.add(run)
+            if len({len(str(r)) for r in known}) > 1:
+                out.nontrivial = True
+                out.label('stored-run-ids-of-different-lengths')
+            job = dawgie.pl.dag.Node('tk.alpha')
+            job.set('runid', None)
+            got = farm.rerunid(job)
+            if got != max(known) + 1:
+                out.fail('runid/not-strictly-larger',
+                         f'stored run IDs {sorted(known)}: an event without '
+                         f'run ID was given {got}, expected '
+                         f'{max(known) + 1}')
+                break
+            if case['use'][n % len(case['use'])]:
+                s.update('T1', got, 0, [n, 'fresh'])
+                known.add(got)
+            job.set('runid', run)
+            if farm.rerunid(job) != run:
+                out.fail('runid/carried-id-not-kept', f'{run}')
+                break
+    finally:
+        s.close()
+    return out
+
+
+def _runid_cases():
+    from hypothesis import strategies as st
+
+    rid = st.one_of(st.integers(0, 12), st.sampled_from(
+        [8, 9, 10, 11, 98, 99, 100, 101, 999, 1000]))
+    return st.fixed_dictionaries({
+        'runs': st.lists(rid, min_size=1, max_size=8),
+        'use': st.lists(st.booleans(), min_size=1, max_size=4),
+    })
+
+
 def parts(tier):
     q = tier == 'quick'
     return [
+        core.Part('runid', exec_runid, strategy=_runid_cases(),
+                  cases=240 if q else 6000, batch=60),
         core.Part(
             'history', execute,
             strategy=sim.histories(
